@@ -205,9 +205,9 @@ def run(eng, R):
                         # arrows at user-supplied bounds: the tail is that of the cost *rise* at the bound, whatever offset the plot uses
                         for call, facts, env, trail in ev.events:
                             bl = [t for t, pol in trail if isinstance(t, ast.For) and isinstance(t.iter, ast.Name) and t.iter.id in ("low", "high")]
-                            if not bl or not (isinstance(call.func.value, ast.Name) and "arrow" in call.func.value.id) or not call.args or not isinstance(call.args[0], ast.Dict):
+                            if not bl or not (isinstance(call.func.value, ast.Name) and "arrow" in call.func.value.id) or not call.args or not isinstance(_spec_dict(ev, call, facts, env), ast.Dict):
                                 continue
-                            d = call.args[0]
+                            d = _spec_dict(ev, call, facts, env)
                             items = {common.const_str(k): v for k, v in zip(d.keys, d.values)}
                             side = common.const_str(items.get("side"))
                             clx = ev.close(items["cl"], facts, env)
@@ -233,10 +233,10 @@ def run(eng, R):
                         state_txt = "low %s, high %s, cl %s, arrows=%s" % ("given" if low0 == NOTNONE else "None", "given" if high0 == NOTNONE else "None", "given" if cl0 == NOTNONE else "None", arrows0)
                         for call, facts, env, trail in ev.events:
                             loops = [t for t, pol in trail if isinstance(t, ast.For) and isinstance(t.iter, ast.Name) and t.iter.id == "cl"]
-                            if not loops or not (isinstance(call.func.value, ast.Name) and "arrow" in call.func.value.id) or not call.args or not isinstance(call.args[0], ast.Dict):
+                            if not loops or not (isinstance(call.func.value, ast.Name) and "arrow" in call.func.value.id) or not call.args or not isinstance(_spec_dict(ev, call, facts, env), ast.Dict):
                                 continue
                             tv = loops[-1].target.id
-                            d = call.args[0]
+                            d = _spec_dict(ev, call, facts, env)
                             items = {common.const_str(k): v for k, v in zip(d.keys, d.values)}
                             side = common.const_str(items.get("side"))
                             if side not in ("left", "right") or "cl" not in items or "y" not in items:
@@ -286,6 +286,14 @@ def run(eng, R):
             for f in cache.visible_functions(c):
                 pairs.append((c, f))
         check_arg_slots(eng, R, "F1", pairs)
+
+def _spec_dict(ev, call, facts, env):
+    """the dictionary appended by `_arrow_specs.append(...)`: written in place, or held by a local that was assigned just before"""
+    a = call.args[0]
+    if isinstance(a, ast.Name) and a.id in env and isinstance(env[a.id], ast.Dict):
+        return env[a.id]
+    return a
+
 
 def _same_sum(a, b):
     return sorted(x.strip() for x in a.split(" + ")) == sorted(x.strip() for x in b.split(" + "))
